@@ -149,6 +149,13 @@ func stringWorkload(r *Run, v2 bool, visit strVisitor) {
 	})
 	r.Phase("token-level exhaustive")
 
+	// 4b. count / length thresholds
+	ls := lengthSweep(v2, r.Thorough())
+	r.Parallel(len(ls), 8, func(w *W, i int) {
+		visit(w, ls[i], &strMeta{Src: "length-sweep", V2: v2, Sharp: -1})
+	})
+	r.Phase("length sweep")
+
 	// 5. arbitrary strings
 	r.Parallel(nRandom/100, 4, func(w *W, blk int) {
 		rng := r.Rng(uint64(blk) + 1<<34)
